@@ -114,8 +114,16 @@ def run(ctx):
         name_def = skl.local_defs().get(strip(nm).get("d"), [])
         idx_def = skl.local_defs().get(strip(ix).get("d"), [])
         okn = bool(name_def) and all("isOuter" in noid(render(d, False)) and '"outer"' in render(d, False) and '"inner"' in render(d, False) for d in name_def)
-        oki = bool(idx_def) and all("isOuter" in noid(render(d, False)) and "outerCount" in render(d, False) and "innerCount" in render(d, False) for d in idx_def)
-        R.ob("C17-R2", okn and oki, skl.q, "dims: outer[outerCount] / inner[innerCount] selected by the same isOuter", skl.site(sd[0]), "array name and index are chosen by the same flag")
+        R.ob("C17-R2", okn, skl.q, "dims: array name outer / inner selected by isOuter", skl.site(sd[0]), "outer loops size `outer`, inner loops `inner`")
+        # the slot index must be the loop's OKL index - the one the device side uses to pick the hardware index - taken from the same loop object
+        cnt_obj = [noid(render(call_object(x), False)) for x in walk(call_args(sd[0])[3]) if is_call(x) and callee(x) == OF + "getIterationCount"]
+        idx_src = [x for d in idx_def for x in walk(d) if is_call(x) and callee(x) == OF + "oklLoopIndex"] if idx_def else \
+                  [x for x in walk(ix) if is_call(x) and callee(x) == OF + "oklLoopIndex"]
+        oki = bool(idx_src) and bool(cnt_obj) and all(noid(render(call_object(x), False)) == cnt_obj[0] for x in idx_src) and \
+            (not idx_def or all(strip(kids(d)[0]) is not None and is_call(strip(kids(d)[0])) and callee(strip(kids(d)[0])) == OF + "oklLoopIndex" for d in idx_def if d["k"] == "VarDecl" and kids(d)))
+        R.ob("C17-R2", oki, skl.q, "dims: slot index = oklLoopIndex() of the loop whose count is stored", skl.site(sd[0]),
+             "same index source as the device side (explicit @outer(n) / @inner(n) honoured)" if oki else
+             "the launch size is stored by position in the nest, the device side maps hardware indices by oklLoopIndex(): with explicit @outer(n)/@inner(n) the iterators run over each other's ranges")
     sdf = prog.fn(NS + "withLauncher::setDim")
     ok = any(n["k"] in ("CXXConstructExpr", "CXXNewExpr") and "op::assign" in noid(render(n, False)) for n in sdf.walk())
     R.ob("C17-R2", ok, sdf.q, "setDim: name[index] = value", "%s:%d" % (sdf.relfile, sdf.d["line"]), "assignment of the count into the dim array")
